@@ -8,6 +8,7 @@ import (
 	"encoding/binary"
 	"fmt"
 	"math"
+	"reflect"
 	"sort"
 	"strings"
 	"time"
@@ -981,4 +982,55 @@ func KindByKey(key string) (*Kind, error) {
 		return k, nil
 	}
 	return nil, fmt.Errorf("unknown kind %q", key)
+}
+
+// Overwriter is implemented by erased columns that can overwrite row i in place
+// (a direct write into the column's own memory, without Reset).
+type Overwriter interface {
+	Overwrite(i int, v ref.Val) bool
+}
+
+// Overwrite writes v over row i of a typed column through its exported
+// representation: slice-typed columns (`*ColInt32` = `*[]int32`), columns with a
+// `Values []T` field (ColEnum, ColLowCardinality) and ColFixedStr's `Buf`.
+func (c *tcol[T]) Overwrite(i int, v ref.Val) (ok bool) {
+	if c.k.manual || c.k.t.K == ref.KArray || c.k.t.K == ref.KNullable || c.k.t.K == ref.KMap || c.k.t.K == ref.KTuple {
+		return false
+	}
+	defer func() {
+		if recover() != nil {
+			ok = false
+		}
+	}()
+	val := reflect.ValueOf(c.k.to(v))
+	rv := reflect.ValueOf(c.raw)
+	if rv.Kind() != reflect.Pointer {
+		return false
+	}
+	el := rv.Elem()
+	switch el.Kind() {
+	case reflect.Slice:
+		if i >= el.Len() || !val.Type().AssignableTo(el.Type().Elem()) {
+			return false
+		}
+		el.Index(i).Set(val)
+		return true
+	case reflect.Struct:
+		if f := el.FieldByName("Values"); f.IsValid() && f.Kind() == reflect.Slice && f.CanSet() {
+			if i >= f.Len() || !val.Type().AssignableTo(f.Type().Elem()) {
+				return false
+			}
+			f.Index(i).Set(val)
+			return true
+		}
+		if fs, isFS := any(c.raw).(*proto.ColFixedStr); isFS {
+			b, isBytes := any(c.k.to(v)).([]byte)
+			if !isBytes || len(b) != fs.Size || (i+1)*fs.Size > len(fs.Buf) {
+				return false
+			}
+			copy(fs.Buf[i*fs.Size:], b)
+			return true
+		}
+	}
+	return false
 }
